@@ -175,3 +175,45 @@ func verifKnownMethod(m string) bool {
 	}
 	return false
 }
+
+// verifDeepEqual: structural equality of two generic JSON trees (numbers as float64).
+func verifDeepEqual(a, b interface{}) bool {
+	switch x := a.(type) {
+	case nil:
+		return b == nil
+	case string:
+		y, ok := b.(string)
+		return ok && x == y
+	case float64:
+		y, ok := b.(float64)
+		return ok && x == y
+	case bool:
+		y, ok := b.(bool)
+		return ok && x == y
+	case []interface{}:
+		y, ok := b.([]interface{})
+		if !ok || len(x) != len(y) {
+			return false
+		}
+		r := true
+		for i := range x {
+			r = vAnd(r, verifDeepEqual(x[i], y[i]))
+		}
+		return r
+	case map[string]interface{}:
+		y, ok := b.(map[string]interface{})
+		if !ok || len(x) != len(y) {
+			return false
+		}
+		r := true
+		for k, v := range x {
+			w, has := y[k]
+			if !has {
+				return false
+			}
+			r = vAnd(r, verifDeepEqual(v, w))
+		}
+		return r
+	}
+	return false
+}
